@@ -75,6 +75,10 @@ FnType(op, ts, nargs) ==
 (* Component-level evaluation: the value of a term on one datapoint.        *)
 (* A name denotes the datapoint's component if it has one, otherwise a      *)
 (* scalar of the environment.                                               *)
+\* the set of an `in` / `not_in`: written in the statement, or a value domain of the environment named by `dom`
+\* (run(value_domains=...): an environment entry [set |-> <<values>>, t |-> type])
+InSet(t, env) == IF "dom" \in DOMAIN t THEN Rng(env[t.dom].set) ELSE Rng(t.set)
+
 RECURSIVE EvalC(_, _, _)
 EvalC(t, row, env) ==
     CASE t.k = "const" -> t.v
@@ -83,7 +87,7 @@ EvalC(t, row, env) ==
       [] t.k = "bin" -> Bin(t.op, EvalC(t.l, row, env), EvalC(t.r, row, env))
       [] t.k = "fn" -> Fn(t.op, [i \in DOMAIN t.args |-> EvalC(t.args[i], row, env)])
       [] t.k = "in" -> LET x == EvalC(t.x, row, env)
-                       IN  IF t.neg THEN NotInV(x, Rng(t.set)) ELSE InV(x, Rng(t.set))
+                       IN  IF t.neg THEN NotInV(x, InSet(t, env)) ELSE InV(x, InSet(t, env))
       [] t.k = "if" -> LET c == EvalC(t.c, row, env)
                        IN  IF IsErr(c) THEN c ELSE IF c = T THEN EvalC(t.t, row, env) ELSE EvalC(t.e, row, env)
       [] t.k = "case" -> LET hits == { i \in DOMAIN t.whens : EvalC(t.whens[i][1], row, env) = T }
